@@ -151,7 +151,9 @@ def job(payload):
             prog = nested_blocks(rng)
         elif rng.random() < 0.12:
             prog = infix_binders(rng)
-        elif rng.random() < 0.08:
+        elif closures and rng.random() < 0.16:
+            # (only where the binders wrapped around the program below never shadow a builtin: `add` rebound to a number makes the
+            # closure in a twin program a legitimately endless one)
             # equal stacks in a row that differ only in what a name is bound to (C01's twins): conditions, assertions and closure bodies read it
             from vf.props import c01
             tprog, tstacks = c01.twin_case(rng, {"maxdepth": 3})
